@@ -32,8 +32,11 @@ TRUSTED_BASE = BASE_TRUSTED + [
 RULE = ('kernel cases: seeded random PSF images (both paddings), paraxial data of both conjugates; system cases: '
         'cut-off/working F-number: both conjugates with object and/or image space in air or an immersion medium (n 1.2..1.7; '
         'fixed relays + lensgen.immerse), magnification from an independent y-nu matrix trace; '
-        'several fields at once: FFTMTF and GeometricMTF built with 2, 3 and 4 fields (on-axis + comatic off-axis; stigmatic and '
-        'spherical mirrors, a clipped mirror, generated lenses), each curve against |DFT| of its own FFTPSF / the intensity-weighted '
+        'PSF normalisation: pupils of non-uniform amplitude (aperture away from the stop, vignetted off-axis field, obscuration, '
+        'absorbing glass; synthetic apodised/partly-zero data) against |sum A e^{i phi}|^2/(sum A)^2; '
+        'several fields at once: FFTMTF and GeometricMTF built with 1, 2, 3 and 4 fields (on-axis + comatic off-axis; stigmatic and '
+        'spherical mirrors, a clipped mirror, singlets and generated lenses with a tilted/decentred surface incl. the exactly-axial field, '
+        'generated lenses), each curve against |DFT| of its own FFTPSF / the intensity-weighted '
         'line spread of independently traced rays / the single-field object / the closed form; '
         'pupil sampling 4..8 (+11,21 for the mask), grid = sampling+0..5 (all parities), OPD from 0 to tens of waves '
         '(defocus/spherical/random), intensities uniform / apodised / partly zero, plus real lenses (generated, '
@@ -174,6 +177,53 @@ def finite_singlet(obj=150.0, epd=6.0, img=None, obj_n=None, img_n=None):
     return o
 
 
+def asymmetric_singlet(rx=0.0, ry=0.0, dx=0.0, dy=0.0, fields=(0.0,), epd=8.0, which=2):
+    """biconvex singlet at infinite conjugate whose surface `which` is tilted (rx, ry in radians) and/or decentred (dx, dy):
+    not rotationally symmetric, so the axial field has coma/astigmatism and its x and y line spreads differ"""
+    from optiland.optic import Optic
+    from optiland.materials import IdealMaterial
+    o = Optic()
+    o.add_surface(index=0, radius=np.inf, thickness=np.inf)
+    k1 = dict(rx=rx, ry=ry, dx=dx, dy=dy) if which == 1 else {}
+    k2 = dict(rx=rx, ry=ry, dx=dx, dy=dy) if which == 2 else {}
+    o.add_surface(index=1, radius=50.0, thickness=5.0, material=IdealMaterial(n=1.6, k=0.0), is_stop=True, **k1)
+    o.add_surface(index=2, radius=-50.0, thickness=40.0, **k2)
+    o.add_surface(index=3)
+    o.set_aperture('EPD', epd)
+    o.set_field_type('angle')
+    for f in fields:
+        o.add_field(y=f)
+    o.add_wavelength(0.55, is_primary=True)
+    return o
+
+
+def apodised_singlet(kind, fields=(0.0,), epd=10.0):
+    """pupils whose amplitude is NOT uniform: 'rear-aperture' = aperture smaller than the beam on a surface away from the stop
+    (clips on axis, vignettes off axis), 'obscuration' = central obscuration away from the stop, 'absorbing' = absorbing glass
+    (transmission falls with the glass path, i.e. varies smoothly over the pupil), 'absorbing-clipped' = both"""
+    from optiland.optic import Optic
+    from optiland.materials import IdealMaterial
+    from optiland.physical_apertures import RadialAperture
+    o = Optic()
+    o.add_surface(index=0, radius=np.inf, thickness=np.inf)
+    k = 6e-5 if 'absorbing' in kind else 0.0
+    kw = {}
+    if kind in ('rear-aperture', 'absorbing-clipped'):
+        kw['aperture'] = RadialAperture(r_max=3.6, r_min=0.0)
+    if kind == 'obscuration':
+        kw['aperture'] = RadialAperture(r_max=50.0, r_min=1.7)
+    o.add_surface(index=1, radius=np.inf, thickness=6.0, is_stop=True)
+    o.add_surface(index=2, radius=70.0, thickness=7.0, material=IdealMaterial(n=1.55, k=k))
+    o.add_surface(index=3, radius=-70.0, thickness=62.0, **kw)
+    o.add_surface(index=4)
+    o.set_aperture('EPD', epd)
+    o.set_field_type('angle')
+    for f in fields:
+        o.add_field(y=f)
+    o.add_wavelength(0.55, is_primary=True)
+    return o
+
+
 def independent_magnification(o, w):
     """lateral magnification m = n u / (n' u') from a y-nu matrix trace of an axial ray through the prescription
     (vertex curvatures, vertex separations, indices at wavelength w); does not call optiland.paraxial.
@@ -257,6 +307,18 @@ def oracle_psf(n, grid, opd, inten, p):
     if np.all(opd == 0) and np.all(inten == inten[0]) and inten[0] != 0:
         if abs(s - 1) > 1e-9 or abs(psf.max() - 100) > 1e-7:
             return dict(base, kind='unaberrated-peak-not-100', strehl=s, peak=float(psf.max()))
+    # normalisation: with pupil amplitudes A_j (the per-sample weights the wavefront data carry) and phases 2 pi opd_j the centre
+    # pixel is 100 |sum A e^{i phi}|^2 / (sum A)^2 -- with A, not A^2 -- and the unaberrated pupil of the same A peaks at 100
+    if np.all(np.isfinite(opd)) and np.all(np.isfinite(inten)) and inten.sum() > 0 and np.all(inten >= 0):
+        expect = float(abs(np.sum(inten * np.exp(2j * np.pi * opd))) ** 2 / inten.sum() ** 2)
+        wrong = float(abs(np.sum(inten * np.exp(2j * np.pi * opd))) ** 2 * len(inten) ** 2 / (inten.sum() ** 2 * np.sum((inten / inten.mean()) ** 2) ** 2))
+        if abs(s - expect) > 1e-9 * (1 + expect):
+            return dict(base, kind='strehl-vs-independent', site='FFTPSF._get_normalization', strehl=s, expected=expect,
+                        uniform_intensity=bool(np.all(inten == inten[0])), equals_amplitude_squared_normalisation=bool(abs(s - wrong) <= 1e-9 * (1 + wrong)),
+                        peak=float(psf.max()))
+        if np.all(opd == 0) and abs(psf.max() - 100) > 1e-7:
+            return dict(base, kind='unaberrated-peak-not-100', strehl=s, peak=float(psf.max()),
+                        uniform_intensity=bool(np.all(inten == inten[0])))
     return None
 
 
@@ -388,6 +450,11 @@ def check_psf_pipeline(ctx):
                             matching_variants=[VNAME(v) for v in sorted(match)], variants_so_far=[VNAME(v) for v in sorted(alive)],
                             violates_property=False, opd_full=[float(v) for v in c['opd']],
                             inten_full=[float(v) for v in c['inten']]))
+            if c['p'] is not None:          # the property's own clauses on this output: a concrete witness if one fails
+                w = oracle_psf(c['n'], c['grid'], c['opd'], c['inten'], c['p'])
+                if w and not any(d.get('kind') == w['kind'] for d in dis):
+                    dis.append(dict(desc, **w, violates_property=True, opd_full=[float(v) for v in c['opd']],
+                                    inten_full=[float(v) for v in c['inten']]))
             continue
         alive &= match
         if c.get('ctor_same') is False:
@@ -550,7 +617,12 @@ def check_difflim(ctx):
         gm.num_points = r.choice([8, 16, 33])
         gm.freq = np.linspace(0, gm.max_freq, gm.num_points)
         gm.data = []
-        _, sf = gm._generate_mtf_data()
+        gm.fields = []
+        try:
+            _, sf = gm._generate_mtf_data()
+        except Exception:      # noqa  -- the stripped-down object is the harness' shortcut: use a fully constructed one
+            gm = GeometricMTF(paraboloid(fno=r.uniform(2.5, 12.0)), fields=[(0.0, 0.0)], num_rays=6, num_points=gm.num_points, scale=True)
+            sf = gm.diff_limited_mtf
         nus = gm.freq / gm.max_freq
         for nu, v in zip(nus, sf):
             lines.append(f'close {fh(1e-11)} (difflim (O:=FOps) {fh(nu)}) {fh(v)}')
@@ -847,10 +919,32 @@ def multifield_lenses(ctx):
     out.append(('spherical-mirror-3f', o, o.fields.get_field_coords(), False))
     o = paraboloid(fields=[0.0, 1.0], conic=0.0, fno=100.0 / 30.0, defocus=0.1, clip=9.0)
     out.append(('spherical-mirror-clipped-2f', o, o.fields.get_field_coords(), False))
+    # not rotationally symmetric: tilted / decentred surface, the exactly-axial field alone and with off-axis fields
+    lr = random.Random(ctx.seed + 209)
+    for j, fs in enumerate(([0.0], [0.0, 1.0], [0.0, 0.6, 1.2])):
+        tilt = lr.choice([-1, 1]) * lr.uniform(0.03, 0.07)
+        dec = lr.choice([-1, 1]) * lr.uniform(0.3, 0.9)
+        o = (asymmetric_singlet(rx=tilt, fields=fs, which=2), asymmetric_singlet(dy=dec, ry=0.5 * tilt, fields=fs, which=1),
+             asymmetric_singlet(dx=dec, rx=0.4 * tilt, fields=fs, which=2))[j]
+        out.append((f'asymmetric-{len(fs)}f', o, o.fields.get_field_coords(), False))
+    for t in range(ctx.n(2, 10)):
+        spec = lensgen.gen_spec(lr, nsurf=lr.choice([2, 3, 4]), allow=['plane', 'standard', 'conic'], finite_object=False, mirrors=False,
+                                decenter=True)
+        if not any('dx' in s_ for s_ in spec['surfaces']):
+            s_ = lr.choice(spec['surfaces'])
+            s_.update(dx=lr.uniform(-0.3, 0.3), dy=lr.uniform(-0.3, 0.3), rx=lr.uniform(-0.03, 0.03), ry=lr.uniform(-0.03, 0.03))
+        nf = lr.choice([1, 2, 3])
+        spec['fields'] = [[2.0 * j / max(1, nf - 1) if nf > 1 else 0.0, 0.0, 0.0, 0.0] for j in range(nf)]
+        try:
+            o = lensgen.build(spec)
+            out.append((f'asymmetricgen-{nf}f-{t}', o, o.fields.get_field_coords(), False))
+        except Exception:     # noqa
+            continue
+    base = len(out)
     lr = random.Random(ctx.seed + 207)
     tries = 0
     want = ctx.n(4, 24)
-    while len(out) < 5 + want and tries < 8 * want:
+    while len(out) < base + want and tries < 8 * want:
         tries += 1
         spec = lensgen.simple_spec(lr, n=lr.choice([1, 2, 3, 4]))
         nf = lr.choice([2, 3, 4])
@@ -950,18 +1044,27 @@ def check_oracle(ctx):
             'note': 'kinds seen: ' + ', '.join(sorted({w['kind'] for w in ws}))}
 
 
+def _guard(name, fn, *a):
+    """run one check; an exception is reported as that check's own error (traceback kept), never lost, and never stops the others"""
+    import traceback
+    try:
+        return fn(*a)
+    except Exception:      # noqa
+        return {'name': name, 'n': 0, 'error': f'check {name} raised:\n' + traceback.format_exc()[-1500:]}
+
+
 def system_checks(ctx):
-    r = check_psf_pipeline(ctx)
+    r = _guard('psf_pipeline', check_psf_pipeline, ctx)
     psfs = r.pop('_psfs', [])
     yield r
-    yield check_oracle(ctx)
-    yield check_multifield(ctx)
-    yield check_mtf_pipeline(ctx, psfs)
-    yield check_freq_axis(ctx)
-    yield check_difflim(ctx)
-    yield check_geo_mtf(ctx)
-    yield check_mask(ctx)
-    yield check_cutoff(ctx)
+    yield _guard('impl_oracle', check_oracle, ctx)
+    yield _guard('multi_field', check_multifield, ctx)
+    yield _guard('mtf_pipeline', check_mtf_pipeline, ctx, psfs)
+    yield _guard('freq_axis', check_freq_axis, ctx)
+    yield _guard('difflim', check_difflim, ctx)
+    yield _guard('geo_mtf', check_geo_mtf, ctx)
+    yield _guard('pupil_mask', check_mask, ctx)
+    yield _guard('cutoff', check_cutoff, ctx)
 
 
 # ----------------------------------------------------------------------------------------------
@@ -1108,6 +1211,13 @@ def search(ctx, broken, disagreements):
             add(oracle_lens(o, 16, 32, name=name))
         except Exception:    # noqa
             continue
+    # pupils of non-uniform amplitude: clipped away from the stop (on axis and vignetted off axis), obscured, absorbing glass
+    for kind in ('rear-aperture', 'obscuration', 'absorbing', 'absorbing-clipped'):
+        for fs in ((0.0,), (0.0, 3.0)):
+            try:
+                add(oracle_lens(apodised_singlet(kind, fields=fs), 16, 32, name=f'apodised-{kind}-{"offaxis" if len(fs) > 1 else "axis"}'))
+            except Exception as e:    # noqa
+                ctx.notes.append(f'search: apodised {kind} raised {type(e).__name__}: {str(e)[:80]}')
     for t in range(ctx.n(10, 80)):
         try:
             o = lensgen.build(lensgen.simple_spec(r, n=r.choice([1, 2, 3, 4, 6])))
@@ -1126,7 +1236,13 @@ def search(ctx, broken, disagreements):
             add([d for d in res.get('disagreements', []) if d.get('violates_property')])
         except Exception as e:     # noqa
             ctx.notes.append(f'search: multi-field sweep raised {type(e).__name__}')
-    return list(found.values()) or None
+    ws = list(found.values())
+    try:            # unlisted witnesses first
+        known = vlib.load_known_findings(PROP)
+        ws.sort(key=lambda w_: any(matches_finding(w_, f) for f in known))
+    except Exception:    # noqa
+        pass
+    return ws or None
 
 
 # ----------------------------------------------------------------------------------------------
